@@ -22,8 +22,9 @@ EXPLANATION = (
     "grouping key, the encoder argument, the broker client and the correlation id; paired appends in one block; the "
     "result comprehension iterates the original key list; except arms inside the fallback loops fall through; the "
     "unavailable error is raised only after the last host."
+    ' Also: an answered request accounts for every payload - those its reply left out go to the failed list (R5, finding F38); the per-broker attempt has a handler for every class of the error table and skips only ids no longer known (R7).'
 )
-SHARED = [('C08', ['R1'], 'the leader the routing looks up is the one the metadata reply names (a listed leader is not turned into `no leader`)'), ('C08', ['R2', 'R5'], 'requests go to the address the current metadata names'), ('C11', ['R1'], 'a request to a broker that never answers ends in the failed list, not in silence')]
+SHARED = [('C04', ['R2'], 'the grouping of a request\'s payloads by topic and partition is total: no payload of a broker\'s share is left out of its request'), ('C08', ['R1'], 'the leader the routing looks up is the one the metadata reply names (a listed leader is not turned into `no leader`)'), ('C08', ['R2', 'R5'], 'requests go to the address the current metadata names'), ('C11', ['R1'], 'a request to a broker that never answers ends in the failed list, not in silence')]
 ASSUMPTIONS = ["dict/defaultdict preserve insertion order; DeferredList preserves the order of its input list"]
 KC = "client:KafkaClient"
 
@@ -263,7 +264,7 @@ def run(ctx):
             where(src, src.node), "JoinGroup/Heartbeat sent to a broker that is not the coordinator")
 
     # ---- R7 fallback order
-    r = ctx.rule("R7", "broker-agnostic: all known brokers connected-first, then every bootstrap host, then the unavailable error", 6, "B")
+    r = ctx.rule("R7", "broker-agnostic: all known brokers connected-first, then every bootstrap host, then the unavailable error", 7, "B")
     sbu = ctx.func(KC + "._send_broker_unaware_request")
     cu = ctx.cfg(sbu)
     def _all_keys_of(e, table):  # a fresh list of every key of the mapping: list(T), list(T.keys()), [k for k in T]
@@ -363,6 +364,20 @@ def run(ctx):
             str(n.lineno) for n in bad_skip), where(sbu, bad_skip[0].stmt if bad_skip else sbu.node),
             "the only broker that could answer is being reconnected to: it is skipped, the others and the bootstrap hosts fail, "
             "the caller sees an unavailable error")
+    # the address book the loop runs over loses entries only through the metadata refresh (`_update_brokers`)
+    kc_ci = prog.cls(KC)
+    shrink = []
+    for f_ in [x for x in prog.funcs.values() if x.cls is kc_ci and x.name not in ("_update_brokers", "__init__")]:
+        for x in walk_body_shallow(f_.body):
+            if isinstance(x, ast.Call) and call_name(x) in ("clear", "pop", "popitem") and call_recv(x) == "self._brokers":
+                shrink.append("%s line %d" % (f_.qname, x.lineno))
+            if isinstance(x, ast.Delete) and any(isinstance(t_, ast.Subscript) and norm(t_.value) == "self._brokers" for t_ in x.targets):
+                shrink.append("%s line %d" % (f_.qname, x.lineno))
+            if isinstance(x, ast.Assign) and any(norm(t_) == "self._brokers" for t_ in x.targets):
+                shrink.append("%s line %d" % (f_.qname, x.lineno))
+    r.check(not shrink, "%s#known-brokers-forgotten-only-by-refresh" % KC, "the table of known brokers is emptied / shrunk outside the metadata refresh: %s" % shrink,
+            where(sbu, sbu.node), "a partial broker failure resets the metadata: the next lookup skips every known (healthy, connected) broker and "
+            "depends on the bootstrap hosts alone")
     bs = [n for n in cu.nodes if any(call_name(c) == "_send_bootstrap_request" for c in n.calls())]
     lbody = cu.reach([lp[0].id], avoid=[t for t, lab in cu.succ[lp[0].id] if lab == ("iter", False)]) if lp else set()
     r.check(len(bs) == 1 and bs[0].id not in lbody and cu.dominates([lp[0].id], bs[0].id) if lp else False, "%s#bootstrap-after-brokers" % sbu.qname,
